@@ -276,6 +276,7 @@ class DiscrLeaf(Node):
             wq = '(LConst %s)' % C.q(c)
         else:
             w = np.array([float(rng.choice([1, 2, 3, 4, 0.5, 0.25])) for _ in range(n_tot)]).reshape(shape)
+            w = w.astype('float32' if dtype == 'float32' else 'float64')
             kw['weighting'] = w
             wq = '(LArr %s)' % qlist(w)
         if all(s[0] == 'flags' for s in specs):
@@ -309,6 +310,30 @@ class DiscrLeaf(Node):
                      'weighting': wkind, 'exponent': str(p)}
         self.rtol = 1e-5 if dtype == 'float32' else 1e-10
 
+    def exact_volume(self):
+        """Cell volume in exact rational arithmetic on the float inputs (what the model computes)."""
+        vol = Fraction(1)
+        for sp in self.specs:
+            n, a, b = sp[1], Fraction(sp[2]), Fraction(sp[3])
+            if n == 1:
+                vol *= (b - a)
+                continue
+            if sp[0] == 'grid':
+                g0, g1 = Fraction(sp[4]), Fraction(sp[5])
+            else:
+                bl, br = sp[4], sp[5]
+                L = b - a
+                if bl and br:
+                    g0, g1 = a, b
+                elif bl:
+                    g0, g1 = a, b - L / (2 * n - 1)
+                elif br:
+                    g0, g1 = a + L / (2 * n - 1), b
+                else:
+                    g0, g1 = a + L / (2 * n), b - L / (2 * n)
+            vol *= (g1 - g0) / (n - 1)
+        return vol
+
     def fragile(self):
         """True when float rounding could flip one of the code's exact tests (cell volume == 1.0,
         isclose band edge): such cases are not generated."""
@@ -318,7 +343,7 @@ class DiscrLeaf(Node):
         c = getattr(w, 'const', None)
         if c is not None and c != 1.0 and abs(c - 1.0) < 1e-9:
             return True
-        if c is None and False:
+        if c is not None and self.wkind == 'default' and (c == 1.0) != (self.exact_volume() == 1):
             return True
         for fl, fr in sp.partition.boundary_cell_fractions:
             for f in (fl, fr):
@@ -377,21 +402,24 @@ class ProdNode(Node):
         return el, '(ENode %s)' % C.lst([pt[1] for pt in parts]), any(pt[2] for pt in parts)
 
 
-def rand_leaf(rng, p, tier):
+def rand_leaf(rng, p, tier, dtype='float64'):
     if rng.random() < 0.5:
         for _ in range(20):
-            lf = DiscrLeaf(rng, p)
+            lf = DiscrLeaf(rng, p, dtype=dtype)
             if not lf.fragile():
                 return lf
-    dt = 'float32' if rng.random() < 0.12 else 'float64'
-    return TensorLeaf(rng, p, dtype=dt)
+    return TensorLeaf(rng, p, dtype=dtype)
 
 
-def rand_tree(rng, depth, tier, p=None, coherent=None):
-    """coherent: probability that children take exponent 2 under an exponent-2 parent (so that inner exists)."""
+def rand_tree(rng, depth, tier, p=None, coherent=None, dtype=None):
+    """coherent: probability that children take exponent 2 under an exponent-2 parent (so that inner exists).
+    One dtype per tree: nested product spaces with mixed dtypes raise AttributeError in inner/norm
+    (finding pspace-nested-mixed-dtype-inner-raises, probed separately)."""
     p = p if p is not None else rng.choice(EXPOS)
+    if dtype is None:
+        dtype = 'float32' if rng.random() < 0.1 else 'float64'
     if depth == 0:
-        return rand_leaf(rng, p, tier)
+        return rand_leaf(rng, p, tier, dtype)
     pp = rng.choice([1, 2, 2, 2, INF, 3])
     k = rng.choice([1, 2, 2, 3, 3])
     power = rng.random() < 0.25
@@ -402,10 +430,10 @@ def rand_tree(rng, depth, tier, p=None, coherent=None):
             return 2
         return rng.choice(EXPOS)
     if power:
-        ch = rand_tree(rng, rng.randint(0, depth - 1), tier, child_p(), coh)
+        ch = rand_tree(rng, rng.randint(0, depth - 1), tier, child_p(), coh, dtype)
         children = [ch] * k
     else:
-        children = [rand_tree(rng, rng.randint(0, depth - 1), tier, child_p(), coh) for _ in range(k)]
+        children = [rand_tree(rng, rng.randint(0, depth - 1), tier, child_p(), coh, dtype) for _ in range(k)]
     return ProdNode(rng, pp, children, power=power)
 
 
@@ -818,6 +846,12 @@ def probes(rng, tier):
               "import odl\nps = odl.ProductSpace(field=odl.RealNumbers(), exponent=%s)\ntry:\n"
               "    observed = ps.zero().norm()\n    ok = observed == 0.0\nexcept Exception as e:\n"
               "    observed = repr(e); ok = False\n" % _pysrc(float(p)))
+    known('pspace-nested-mixed-dtype-inner-raises',
+          'inner/norm on an exponent-2 product whose component is a mixed-dtype product space',
+          "import odl, numpy as np\nps = odl.ProductSpace(odl.ProductSpace(odl.rn(2, dtype='float32'), odl.rn(3)), "
+          "odl.ProductSpace(odl.rn(2), 2))\nx = ps.one()\ntry:\n    observed = (x.inner(x), x.norm())\n"
+          "    ok = abs(observed[0] - 9.0) < 1e-6 and abs(observed[1] - 3.0) < 1e-6\n"
+          "except AttributeError as e:\n    observed = repr(e); ok = False\n")
     known('discr-bdry-fraction-isclose-snap',
           'boundary fraction 1.000002 (inside the np.isclose band): ||one||^2 == volume',
           "import odl, numpy as np\npart = odl.RectPartition(odl.IntervalProd(0, 4 + 0.5 + 0.5 * 1.000004), "
